@@ -13,9 +13,11 @@ import (
 //   - SetRange of any valid range with the remote bytes (the caller does not touch the slice afterwards),
 //   - DeleteOldEntries (the age of every entry is arbitrary: any subset of the entries expires).
 //
-// After every read the returned buffer is overwritten by the caller (a returned buffer must not
-// be the cache's own storage, else the next read of that range returns the caller's scribbles).
-// Every read is checked against the remote bytes and the invariant is checked after every step.
+// After every read the caller keeps the returned buffer and writes its own data over it: the
+// buffer must not be the cache's storage (else a later read returns the caller's data) and must
+// never be written again by the cache (all held buffers are re-checked after every step).
+// Every read is checked against the remote bytes. Black box: only the public API is used; at
+// the end EVERY range of the file is read with the remote working and must give the remote bytes.
 func VerifC17Hist() {
 	const id = "C17.hist"
 	size := verifParam("size", 3)
@@ -23,8 +25,8 @@ func VerifC17Hist() {
 	withSet := verifParam("with_set", 1)
 	rc, m := c17New(size, verifParam("fail", 1) == 1)
 	ctx := context.Background()
-	verifMapOrderNondet(true)
 	nr := c17NumRanges(size)
+	var held []c17Held
 
 	for step := 0; step < H; step++ {
 		verifMapOrderNondet(true)
@@ -37,70 +39,31 @@ func VerifC17Hist() {
 		case op < nr: // read of a valid range
 			a, b := c17RangeByIndex(size, op)
 			fails0 := m.fails
-			before := c17Keys(rc)
-			verifMapOrderNondet(true)
 			got, err := rc.GetRange(ctx, a, b-a)
 			c17CheckGet(m, id, a, b-a, got, err, fails0)
-			if err != nil {
-				c17SameKeys(rc, before, id+": a failed read changed the set of cached ranges")
-			}
-			for i := range got {
-				got[i] ^= 0xA5 // the caller reuses its buffer
+			if err == nil {
+				// the caller keeps the buffer and writes its own data over it
+				held = c17Hold(held, got, a)
 			}
 		case op == nr: // read that is not inside the file (arbitrary 64-bit arguments: see C17.step; here three shapes)
 			bad := [][2]int64{{m.size, 1}, {-1, 1}, {1, -1}}[verifChoice("bad", 3)]
 			start, ln := bad[0], bad[1]
-			before := c17Keys(rc)
-			verifMapOrderNondet(true)
 			got, err := rc.GetRange(ctx, start, ln)
 			c17CheckGet(m, id, start, ln, got, err, m.fails)
-			c17SameKeys(rc, before, id+": a refused read changed the set of cached ranges")
 		case op == nr+1: // expiry
-			before := c17Keys(rc)
-			verifMapOrderNondet(true)
 			rc.DeleteOldEntries(ctx, time.Minute)
-			c17SubsetKeys(rc, before, id+": DeleteOldEntries added a cached range")
 		default: // SetRange of a valid range with the remote bytes
 			a, b := c17RangeByIndex(size, op-nr-2)
 			value := make([]byte, b-a)
 			copy(value, m.data[a:b])
 			rc.SetRange(ctx, a, b-a, value)
 		}
-		c17Invariant(rc, m, id)
+		verifMapOrderNondet(false)
+		c17CheckHeld(m, held, id)
 	}
-	verifReach("end")
-}
-
-// C17.closed — use after Close (adjacent to the property: HTTPSingleFileRemoteReaderAt.Close
-// closes the cache while the reader object stays reachable). After Close an operation must not
-// crash the process: a read returns the remote bytes or an error.
-func VerifC17Closed() {
-	const id = "C17.closed"
-	size := verifParam("size", 3)
-	rc, m := c17New(size, true)
-	ctx := context.Background()
-	c17SeedSet(rc, m, size, 1)
-	verifMapOrderNondet(true)
-	rc.Close()
-	op := verifChoice("op", 3)
-	// known finding: Close sets the map to nil; every later store into it (the miss path of
-	// GetRange, SetRange) panics with "assignment to entry in nil map"
-	verifKnownFinding("C17-use-after-close", op != 2)
-	switch op {
-	case 0:
-		start, ln, _ := c17Args(m, size)
-		fails0 := m.fails
-		got, err := rc.GetRange(ctx, start, ln)
-		if err == nil {
-			c17CheckGet(m, id, start, ln, got, err, fails0)
-		}
-	case 1:
-		a, b := c17RangeByIndex(size, verifChoice("range", c17NumRanges(size)))
-		value := make([]byte, b-a)
-		copy(value, m.data[a:b])
-		rc.SetRange(ctx, a, b-a, value)
-	case 2:
-		rc.DeleteOldEntries(ctx, time.Minute)
-	}
+	// black-box invariant: whatever the history left in the cache, every range now reads right
+	// (a cached failed fetch, a padded or misplaced entry would be served to one of these reads)
+	c17Probe(rc, m, size, id)
+	c17CheckHeld(m, held, id)
 	verifReach("end")
 }
